@@ -471,6 +471,14 @@ def gen_loop(rng, P=None):
         m.tasks["rep"].trans.append(Tr(0, cond=rng.choice([("succeeded",), None]), lang=rng.choice(P["langs"]),
                                        pubs=[("z", ("cat", "z", "|rep"))] if rng.random() < 0.5 else [], do=["arch"]))
         m.tags.add("loop_fork")
+        if rng.random() < P.get("p_loop_fork_join", 0.0):
+            # ... and that outside task is a `join: all` which also waits for a slow task started before the loop: every pass
+            # arrives again at the still waiting join (the newest arrival of the looping task is what it must see)
+            m.tasks["slow"] = Task("slow")
+            m.tasks["slow"].trans.append(Tr(0, cond=None, lang=rng.choice(P["langs"]),
+                                            pubs=[("z", ("cat", "z", "|slow"))] if rng.random() < 0.5 else [], do=["rep"]))
+            m.tasks["rep"].join = "all"
+            m.tags.add("loop_fork_join")
     # single entry into the loop: from one non-items dag task on success, or as its own start
     cands = [n for n in names]
     if cands:
@@ -493,7 +501,7 @@ def gen_loop(rng, P=None):
 
 
 def _tag(m):
-    tags = set(t for t in m.tags if t in ("latevar", "loop", "loop_join", "loop_fork", "loop_fork_single", "loop_multi_entry", "loop_items_change", "loop_head_join"))
+    tags = set(t for t in m.tags if t in ("latevar", "loop", "loop_join", "loop_fork", "loop_fork_single", "loop_multi_entry", "loop_items_change", "loop_head_join", "loop_fork_join"))
     for t in m.tasks.values():
         if t.join is not None:
             tags.add("join")
